@@ -61,87 +61,79 @@ BareWrapOps == {"WithStack", "WithAssertionFailure", "Handled", "Opaque", "Handl
 BinOps      == {"Mark", "WithSecondaryError", "CombineErrors", "Join", "JoinPkg", "GoJoin"}
 ForeignWrap == {"PkgWithMessage", "PkgWrap", "OsSyscallError", "PkgWithStack"}
 
-\* candidate steps in state sl
-Cands(sl) ==
-  LET on(o) == o \in Ops IN
-  UNION {
-    {Step(o, d, E, s, E, E, 0, E) : o \in StrLeafOps \cap Ops, d \in FirstFree(sl), s \in Shapes},
-    {Step("Sentinel", d, E, <<p[2]>>, <<<<p[1]>>>>, E, 0, E) :
-        d \in (IF on("Sentinel") THEN FirstFree(sl) ELSE {}), p \in SentinelPool},
-    {Step("CtxDeadline", d, E, E, E, E, 0, E) : d \in (IF on("CtxDeadline") THEN FirstFree(sl) ELSE {})},
-    {Step("Errno", d, E, <<n[2]>>, <<<<n[1]>>>>, E, 0, E) :
-        d \in (IF on("Errno") THEN FirstFree(sl) ELSE {}), n \in ErrnoPool},
-    {Step("Unimplemented", d, E, s, l, E, 0, E) :
-        d \in (IF on("Unimplemented") THEN FirstFree(sl) ELSE {}), s \in Shapes, l \in LinkPool},
-    {Step(o, d, E, E, E, p, 0, E) :
-        o \in {"Newf", "AssertionFailedf"} \cap Ops, d \in FirstFree(sl), p \in PartsPool(sl)},
-    {Step("Newf", d, E, E, E, p, 0, E) :
-        d \in (IF on("NewfW") THEN FirstFree(sl) ELSE {}), p \in WPartsPool(sl)},
-    {Step("ULeaf", d, E, s, <<<<k>>>>, E, 0, E) :
-        d \in (IF on("ULeaf") THEN FirstFree(sl) ELSE {}), s \in Shapes, k \in ULeafKinds},
-    \* leaves with their own Is method: value-comparing (says it is any error
-    \* whose text is the tag) and identity-comparing (the user sentinel)
-    {Step("ULeaf", d, E, s, <<<<"uIsLeaf">>, t>>, E, 0, E) :
-        d \in (IF on("UIs") THEN FirstFree(sl) ELSE {}), s \in Shapes, t \in Shapes},
-    {Step("ULeaf", d, E, s, <<<<"uIsIdLeaf">>>>, E, 0, E) :
-        d \in (IF on("UIs") THEN FirstFree(sl) ELSE {}), s \in Shapes},
-    {Step("Sentinel", d, E, <<"w900">>, <<<<"ID_user">>>>, E, 0, E) :
-        d \in (IF on("UIs") THEN FirstFree(sl) ELSE {})},
-    \* wrappers, in place
-    UNION {{Step(o, i, <<i>>, s, E, E, 0, E) :
-               i \in (IF o \in ForeignWrap THEN NonNil(sl) ELSE Targets(sl)),
-               s \in (IF o \in {"Wrap", "WithMessage"} THEN Shapes \cup {E}
-                      ELSE IF o \in {"PkgWithMessage", "PkgWrap"} THEN Shapes ELSE Shapes2)} :
-           o \in StrWrapOps \cap Ops},
-    UNION {{Step(o, i, <<i>>, E, E, E, 0, E) :
-               i \in (IF o \in ForeignWrap THEN NonNil(sl) ELSE Targets(sl))} :
-           o \in BareWrapOps \cap Ops},
-    {Step(o, i, <<i>>, E, E, p, 0, E) :
-        o \in {"Wrapf", "NewAssertionErrorWithWrappedErrf", "WithSafeDetails"} \cap Ops,
-        i \in Targets(sl), p \in PartsPool(sl) \cup {E}},
-    {Step("WithTelemetry", i, <<i>>, E, a, E, 0, E) :
-        i \in (IF on("WithTelemetry") THEN Targets(sl) ELSE {}), a \in KeyPool},
-    {Step("WithIssueLink", i, <<i>>, E, a, E, 0, E) :
-        i \in (IF on("WithIssueLink") THEN Targets(sl) ELSE {}), a \in LinkPool},
-    {Step("WithContextTags", i, <<i>>, E, a, E, 0, E) :
-        i \in (IF on("WithContextTags") THEN Targets(sl) ELSE {}), a \in TagPool \cup {E}},
-    {Step(o, i, <<i>>, E, a, E, 0, E) :
-        o \in {"WrapWithHTTPCode", "WrapWithGrpcCode"} \cap Ops, i \in Targets(sl), a \in CodePool},
-    {Step("HandledInDomainWithMessage", i, <<i>>, s, <<t>>, E, 0, E) :
-        i \in (IF on("HandledInDomainWithMessage") THEN Targets(sl) ELSE {}), s \in Shapes, t \in Shapes2},
-    {Step("GoWrap", i, <<i>>, pre, <<post>>, E, 0, E) :
-        i \in (IF on("GoWrap") THEN NonNil(sl) ELSE {}),
-        pre \in {s \o <<SEP>> : s \in Shapes2} \cup {E} \cup Shapes2, post \in {E} \cup {<<SP>> \o s : s \in Shapes2}},
-    {Step("OsPathError", i, <<i>>, E, <<<<"w1">>, s>>, E, 0, E) :
-        i \in (IF on("OsPathError") THEN NonNil(sl) ELSE {}), s \in Shapes2},
-    {Step("OsLinkError", i, <<i>>, E, <<<<"w1">>, s, <<"w2">>>>, E, 0, E) :
-        i \in (IF on("OsLinkError") THEN NonNil(sl) ELSE {}), s \in Shapes2},
-    {Step("UWrap", i, <<i>>, s, <<<<k>>>>, E, 0, E) :
-        i \in (IF on("UWrap") THEN NonNil(sl) ELSE {}), s \in Shapes2, k \in UWrapKinds},
-    \* binary operations: result replaces the first operand
-    {Step(o, p[1], <<p[1], p[2]>>, E, E, E, 0, E) : o \in BinOps \cap Ops, p \in Pairs(sl)},
-    {Step(o, i, <<i, j>>, E, E, E, 0, E) :
-        o \in (IF NilOps THEN {"WithSecondaryError", "CombineErrors", "Join", "JoinPkg", "GoJoin", "Mark"} \cap Ops ELSE {}),
-        i \in FirstFree(sl), j \in NonNil(sl) \cup FirstFree(sl)},
-    {Step(o, i, <<i, j>>, E, E, E, 0, E) :
-        o \in (IF NilOps THEN {"WithSecondaryError", "CombineErrors", "Join", "JoinPkg", "GoJoin"} \cap Ops ELSE {}),
-        i \in NonNil(sl), j \in FirstFree(sl)},
-    {Step("GoWrap2", p[1], <<p[1], p[2]>>, s, E, E, 0, E) :
-        p \in (IF on("GoWrap2") THEN Pairs(sl) ELSE {}), s \in {<<SP>>, <<SEP>>, <<NL>>}},
-    {Step("Hop", i, <<i>>, E, E, E, 0, <<"*">>) : i \in (IF on("Hop") THEN NonNil(sl) ELSE {})},
-    \* hop to a process that knows only a subset of the families occurring in the value
-    UNION {{Step("Hop", i, <<i>>, E, E, E, 0, SetToSeq(k)) : k \in KnownSets(sl[i])} :
-           i \in (IF on("HopU") THEN NonNil(sl) ELSE {})}
-  }
+\* take step st: the action of the generator
+Take(st) ==
+  /\ Do(st)
+  /\ NodeCount(slots'[st.dst]) <= MaxNodes
+  /\ hist' = Append(hist, st)
+
+On(o) == o \in Ops
+\* The enabled steps, as nested quantifiers (one big set of step records would
+\* be normalised by TLC in every state).  Leaves go to the first free slot,
+\* wrappers are applied in place, binary operations replace the first operand.
+Step1(sl) ==
+  \/ \E o \in StrLeafOps \cap Ops : \E d \in FirstFree(sl) : \E s \in Shapes : Take(Step(o, d, E, s, E, E, 0, E))
+  \/ On("Sentinel") /\ \E d \in FirstFree(sl) : \E p \in SentinelPool :
+        Take(Step("Sentinel", d, E, <<p[2]>>, <<<<p[1]>>>>, E, 0, E))
+  \/ On("CtxDeadline") /\ \E d \in FirstFree(sl) : Take(Step("CtxDeadline", d, E, E, E, E, 0, E))
+  \/ On("Errno") /\ \E d \in FirstFree(sl) : \E n \in ErrnoPool : Take(Step("Errno", d, E, <<n[2]>>, <<<<n[1]>>>>, E, 0, E))
+  \/ On("Unimplemented") /\ \E d \in FirstFree(sl) : \E s \in Shapes : \E lk \in LinkPool :
+        Take(Step("Unimplemented", d, E, s, lk, E, 0, E))
+  \/ \E o \in {"Newf", "AssertionFailedf"} \cap Ops : \E d \in FirstFree(sl) : \E p \in PartsPool(sl) :
+        Take(Step(o, d, E, E, E, p, 0, E))
+  \/ On("NewfW") /\ \E d \in FirstFree(sl) : \E p \in WPartsPool(sl) : Take(Step("Newf", d, E, E, E, p, 0, E))
+  \/ On("ULeaf") /\ \E d \in FirstFree(sl) : \E s \in Shapes : \E k \in ULeafKinds :
+        Take(Step("ULeaf", d, E, s, <<<<k>>>>, E, 0, E))
+  \* leaves with their own Is method: value-comparing (says it is any error whose
+  \* text is the tag) and identity-comparing (the user sentinel)
+  \/ On("UIs") /\ \E d \in FirstFree(sl) :
+        \/ \E s \in Shapes : \E t \in Shapes : Take(Step("ULeaf", d, E, s, <<<<"uIsLeaf">>, t>>, E, 0, E))
+        \/ \E s \in Shapes : Take(Step("ULeaf", d, E, s, <<<<"uIsIdLeaf">>>>, E, 0, E))
+        \/ Take(Step("Sentinel", d, E, <<"w900">>, <<<<"ID_user">>>>, E, 0, E))
+  \* wrappers, in place
+  \/ \E o \in StrWrapOps \cap Ops :
+        \E i \in (IF o \in ForeignWrap THEN NonNil(sl) ELSE Targets(sl)) :
+          \E s \in (IF o \in {"Wrap", "WithMessage"} THEN Shapes \cup {E}
+                    ELSE IF o \in {"PkgWithMessage", "PkgWrap"} THEN Shapes ELSE Shapes2) :
+            Take(Step(o, i, <<i>>, s, E, E, 0, E))
+  \/ \E o \in BareWrapOps \cap Ops :
+        \E i \in (IF o \in ForeignWrap THEN NonNil(sl) ELSE Targets(sl)) : Take(Step(o, i, <<i>>, E, E, E, 0, E))
+  \/ \E o \in {"Wrapf", "NewAssertionErrorWithWrappedErrf", "WithSafeDetails"} \cap Ops :
+        \E i \in Targets(sl) : \E p \in PartsPool(sl) \cup {E} : Take(Step(o, i, <<i>>, E, E, p, 0, E))
+  \/ On("WithTelemetry") /\ \E i \in Targets(sl) : \E a \in KeyPool : Take(Step("WithTelemetry", i, <<i>>, E, a, E, 0, E))
+  \/ On("WithIssueLink") /\ \E i \in Targets(sl) : \E a \in LinkPool : Take(Step("WithIssueLink", i, <<i>>, E, a, E, 0, E))
+  \/ On("WithContextTags") /\ \E i \in Targets(sl) : \E a \in TagPool \cup {E} :
+        Take(Step("WithContextTags", i, <<i>>, E, a, E, 0, E))
+  \/ \E o \in {"WrapWithHTTPCode", "WrapWithGrpcCode"} \cap Ops : \E i \in Targets(sl) : \E a \in CodePool :
+        Take(Step(o, i, <<i>>, E, a, E, 0, E))
+  \/ On("HandledInDomainWithMessage") /\ \E i \in Targets(sl) : \E s \in Shapes : \E t \in Shapes2 :
+        Take(Step("HandledInDomainWithMessage", i, <<i>>, s, <<t>>, E, 0, E))
+  \/ On("GoWrap") /\ \E i \in NonNil(sl) :
+        \E pre \in {s \o <<SEP>> : s \in Shapes2} \cup {E} \cup Shapes2 :
+          \E post \in {E} \cup {<<SP>> \o s : s \in Shapes2} : Take(Step("GoWrap", i, <<i>>, pre, <<post>>, E, 0, E))
+  \/ On("OsPathError") /\ \E i \in NonNil(sl) : \E s \in Shapes2 :
+        Take(Step("OsPathError", i, <<i>>, E, <<<<"w1">>, s>>, E, 0, E))
+  \/ On("OsLinkError") /\ \E i \in NonNil(sl) : \E s \in Shapes2 :
+        Take(Step("OsLinkError", i, <<i>>, E, <<<<"w1">>, s, <<"w2">>>>, E, 0, E))
+  \/ On("UWrap") /\ \E i \in NonNil(sl) : \E s \in Shapes2 : \E k \in UWrapKinds :
+        Take(Step("UWrap", i, <<i>>, s, <<<<k>>>>, E, 0, E))
+  \* binary operations: the result replaces the first operand
+  \/ \E o \in BinOps \cap Ops : \E p \in Pairs(sl) : Take(Step(o, p[1], <<p[1], p[2]>>, E, E, E, 0, E))
+  \/ NilOps /\ \E o \in {"WithSecondaryError", "CombineErrors", "Join", "JoinPkg", "GoJoin", "Mark"} \cap Ops :
+        \E i \in FirstFree(sl) : \E j \in NonNil(sl) \cup FirstFree(sl) : Take(Step(o, i, <<i, j>>, E, E, E, 0, E))
+  \/ NilOps /\ \E o \in {"WithSecondaryError", "CombineErrors", "Join", "JoinPkg", "GoJoin"} \cap Ops :
+        \E i \in NonNil(sl) : \E j \in FirstFree(sl) : Take(Step(o, i, <<i, j>>, E, E, E, 0, E))
+  \/ On("GoWrap2") /\ \E p \in Pairs(sl) : \E s \in {<<SP>>, <<SEP>>, <<NL>>} :
+        Take(Step("GoWrap2", p[1], <<p[1], p[2]>>, s, E, E, 0, E))
+  \* transfer
+  \/ On("Hop") /\ \E i \in NonNil(sl) : Take(Step("Hop", i, <<i>>, E, E, E, 0, <<"*">>))
+  \* hop to a process that knows only a subset of the families occurring in the value
+  \/ On("HopU") /\ \E i \in NonNil(sl) : \E k \in KnownSets(sl[i]) :
+        Take(Step("Hop", i, <<i>>, E, E, E, 0, SetToSeq(k)))
 
 GInit == Init /\ hist = <<>>
 
-GNext ==
-  /\ Len(hist) < MaxD
-  /\ \E st \in Cands(slots) :
-       /\ Do(st)
-       /\ NodeCount(slots'[st.dst]) <= MaxNodes
-       /\ hist' = Append(hist, st)
+GNext == Len(hist) < MaxD /\ Step1(slots)
 
 GSpec == GInit /\ [][GNext]_vars
 
